@@ -147,12 +147,21 @@ func TryPack(msg *dns.Msg, consume func([]byte) error) (handled bool, err error)
 	// touched.
 	sizeProbe := *msg
 	sizeProbe.Compress = false
-	if sizeProbe.Len() > packBufferSize {
+	uncompressed := sizeProbe.Len()
+	if uncompressed > packBufferSize {
 		return false, nil
 	}
 
 	state := packStatePool.Get().(*packState)
 	defer state.release()
+
+	// The library packs into a zeroed array of uncompressed+1 octets, and not
+	// every field packer writes what it advances over: packDataA on a 16-byte
+	// address that is not IPv4 moves the offset by four and copies nothing, so
+	// the rdata is whatever lay underneath. In a pooled buffer that is a piece
+	// of an earlier message. Zero what this pack can reach, as the library's
+	// fresh array is.
+	clear(state.buf[:min(uncompressed+1, packBufferSize)])
 
 	compress := msg.Compress && msgIsCompressible(msg)
 	var compression map[string]int
